@@ -49,3 +49,7 @@ package validation
 //@   loop 1 invariant forall a common.Address :: has(address, a) ==> 0 <= sel(src, a) && sel(src, a) < it1 && a == entryAddr(tx, sel(src, a))
 //@   loop 2 invariant len(addrList) == it2 && forall j int :: 0 <= j && j < it2 ==> addrList[j] == sel(seq2, j)
 //@   ensures[c39-attributed-sound] result == nil ==> forall j int :: 0 <= j && j < len(tx.SignedAddr) ==> 0 <= sel(src, tx.SignedAddr[j]) && sel(src, tx.SignedAddr[j]) < len(tx.Sigs) && tx.SignedAddr[j] == entryAddr(tx, sel(src, tx.SignedAddr[j]))
+
+//@ func hasDuplicateKeys
+//@   trusted   -- compares the canonical encodings (keypair.SerializePublicKey, library) of the listed keys in a local map: reads only
+//@   modifies nothing
